@@ -408,6 +408,23 @@ def itemsFromKey (cfg : Cfg) (m : RawMap K V) (start : K) (e : Bound K) : Res (L
     | none => .ok []
     | some (id, idx, _) => drain (itemNext cfg m m.fuel) m.itemBound (itemsFrom m id idx e)
 
+/-- `RangeIterator::new_with_skip_owned(tree, start_info, skip_first, end_info)` called directly (it is a public,
+    safe constructor) with an arbitrary start position -/
+def rangeStartAt (m : RawMap K V) (info : Option (Nat × Nat)) (skip : Bool) (hi : Bound K) : RangeState K V :=
+  match info with
+  | none => { it := none, skipFirst := skip, firstKey := none }
+  | some (leafId, idx) =>
+    let it1 : ItState K V := withEnd { leaf := m.getLeaf leafId, idx := idx } hi
+    let fk : Option K := if skip then (m.getLeaf leafId).bind (fun l => l.keys[idx]?) else none
+    { it := some it1, skipFirst := skip, firstKey := fk }
+
+def rangeFrom (cfg : Cfg) (m : RawMap K V) (info : Option (Nat × Nat)) (skip : Bool) (hi : Bound K) : Res (List (K × V)) :=
+  drain (rangeNext cfg m m.fuel) m.itemBound (rangeStartAt m info skip hi)
+
+/-- `ItemIterator::new_from_position_with_bounds(tree, leaf_id, index, end)` called directly with an arbitrary position -/
+def itemsFromPos (cfg : Cfg) (m : RawMap K V) (leafId idx : Nat) (e : Bound K) : Res (List (K × V)) :=
+  drain (itemNext cfg m m.fuel) m.itemBound (itemsFrom m leafId idx e)
+
 /-! ## validators -/
 
 /-- `for i in 1..len { if keys[i-1] >= keys[i] { return false } }` -/
